@@ -109,10 +109,52 @@ inline GpInput gen_stairs(Rng& g) {
   return in;
 }
 
+// Engineered integer coincidences that general position allows: an edge e reaches an intermediate vertex P at a scanline while
+// its right neighbour n had its last crossing of the scanbeam at the integer point Q = (P.x, P.y + h) (so the x the engine
+// remembers for n is P.x although n is well to the right of P at that scanline), and n's top lies on the extension of e's next
+// edge (P, e.top, n.top collinear).  Every join test that trusts a remembered x or only tests collinearity sees "touching
+// collinear edges" here.  Built around P = (0,0) with y growing downwards (the sweep runs from large y to small y), then scaled,
+// translated and optionally mirrored in x (the left/right roles swap).
+inline GpInput gen_stalex(Rng& g) {
+  GpInput in;
+  for (int attempt = 0; attempt < 200; ++attempt) {
+    int64_t dx = g.range(1, 6), dy = g.range(1, 6), a = g.range(1, 3), b = a + g.range(1, 4), h = g.range(1, 9);
+    Point64 etop(a * dx, -a * dy), ntop(b * dx, -b * dy), Q((int64_t)0, h), nbot(-b * dx, 2 * h + b * dy), P(0, 0);
+    int64_t c = g.range(0, b - a), r = g.range(1, 3);
+    Point64 X(etop.x + c * dx - r * dy, etop.y - c * dy - r * dx);
+    // the crossing edge through Q: S0 (below Q, between e and n) -> S1 (above P's scanline, right of n)
+    int64_t wx = g.range(1, 8), wy = g.range(1, 5), t = g.range(1, 4), sN = g.range(1, 6);
+    Point64 S0(-t * wx, h + t * wy), S1(sN * wx, h - sN * wy);
+    if (S1.y >= 0) continue;
+    auto side = [](const Point64& p, const Point64& q, const Point64& z) {   // > 0: z to the right of p->q when looking up the page
+      return (__int128)(q.x - p.x) * (z.y - p.y) - (__int128)(q.y - p.y) * (z.x - p.x); };
+    // S0 strictly between e (nbot->P) and n (nbot->ntop), S1 strictly beyond n
+    if (S0.y >= nbot.y) continue;
+    __int128 s_e = side(nbot, P, S0), s_n = side(nbot, ntop, S0), s1_n = side(nbot, ntop, S1);
+    if (!((s_e > 0) != (s_n > 0)) || s_e == 0 || s_n == 0 || s1_n == 0 || ((s1_n > 0) != (s_n < 0))) continue;
+    Point64 S2(S1.x + g.range(1, 6) * 3, g.coin() ? (int64_t)(S1.y - g.range(1, 5)) : (int64_t)(-g.range(1, 3)));
+    if (S2.y >= 0 || S2.y == S1.y) continue;
+    int64_t u = g.pick(std::vector<int64_t>{1, 1, 10, 20, 1000, 1000000});
+    int64_t ox = g.range(-50, 50) * u, oy = g.range(-50, 50) * u;
+    bool mirror = g.coin();
+    auto T = [&](const Point64& q) { return Point64((mirror ? -q.x : q.x) * u + ox, q.y * u + oy); };
+    Path64 poly{T(nbot), T(ntop), T(X), T(etop), T(P)}, sliver{T(S0), T(S2), T(S1)};
+    if (g.coin()) std::reverse(poly.begin(), poly.end());
+    if (g.coin()) std::reverse(sliver.begin(), sliver.end());
+    in.subj = {poly}; in.clip = {sliver};
+    if (g.chance(30)) std::swap(in.subj, in.clip);
+    in.R = 60 * u + 50 * u;
+    in.kind = "stale-x-coincidence";
+    return in;
+  }
+  return gen_stairs(g);
+}
+
 inline GpInput gen_gp_plain(Rng& g);
 inline GpInput gen_gp(Rng& g) {
   if (g.chance(15)) return gen_nearparallel(g);
   if (g.chance(12)) return gen_stairs(g);
+  if (g.chance(8)) return gen_stalex(g);
   return gen_gp_plain(g);
 }
 
